@@ -20,6 +20,10 @@ from vlib.val import line, Word, is_err
 from vlib.compare import diff, Err
 
 ID = 'C14'
+ASSUMPTIONS = ['the collocation (or normal) matrix of every generated problem is non-singular with condition number <= 2e4 '
+               '(the property quantifies over non-singular collocation only)',
+               'loft: the section nets handed to the model are those produced by the REAL make_splines_identical '
+               '(property C12); the oracle runs the full loft on the raw sections']
 RTOL = 1e-9
 ATOL = 1e-11
 KTOL = 1e-11          # knots (the model gets the float parameters; only rounding of sums differs)
@@ -393,7 +397,7 @@ def _error_spec(rng):
 def generate(rng, tier):
     q = tier == 'quick'
     specs = []
-    rep = 1 if q else 12
+    rep = 3 if q else 24
     for _ in range(rep):
         for i in range(14):
             specs.append(_interp_curve_spec(rng, want_periodic=(i % 3 == 0), dim=[1, 2, 3][i % 3]))
